@@ -70,7 +70,7 @@ TraceFootprint ==
   /\ LET mode == IF Has(e, "mode") THEN e.mode ELSE "excl" IN
      /\ mode \in {"excl", "shared", "none"}
      /\ (e.p = <<>> /\ mode = "shared") => LockKind(e.t) = "rwmutex"    \* only such a lock has a shared mode
-     /\ (e.p = <<>> /\ mode = "none") => LockKind(e.t) = "none"
+     /\ (e.p = <<>> /\ mode = "none") => LockKind(e.t) \in {"none", "locker"}   \* a lock that cannot be held from outside
      /\ IF mode = "none" THEN ~e.blocked                                \* nothing was held
         ELSE IF e.p = <<>>                                             \* the instance lock: exactly
              THEN e.blocked = (IF mode = "shared" THEN TakesX(e.t, e.m, e.p) ELSE Takes(e.t, e.m, e.p))
